@@ -230,7 +230,7 @@ Qed.
 (** ** Normalisation done by NewWindowCalculator *)
 Lemma normalize_valid : forall c, 6 <= cycle c -> 0 < window c -> 0 <= tol c -> valid (normalize c).
 Proof.
-  intros c H6 Hw Ht. unfold normalize, valid.
+  intros c H6 Hw Ht. unfold normalize, valid, norm_divisor.
   destruct (cycle c <=? window c) eqn:E; cbn [window cycle tol].
   - lia.
   - apply Z.leb_gt in E. lia.
